@@ -122,6 +122,8 @@ impl<'i> RecipeCollector<'i, '_> {
 
         let events = events.by_ref();
         while let Some(event) = events.next() {
+            #[cfg(cooklang_verif)]
+            let verif_event = verif_event_name(&event);
             match event {
                 Event::YAMLFrontMatter(yaml_text) => {
                     self.old_style_metadata = true;
@@ -197,10 +199,14 @@ impl<'i> RecipeCollector<'i, '_> {
                     // discard non parser errors/warnings
                     self.ctx.retain(|e| e.stage == crate::error::Stage::Parse);
                     // return no output
+                    #[cfg(cooklang_verif)]
+                    self.verif_snapshot(verif_event, current_block.is_some());
                     return PassResult::new(None, self.ctx);
                 }
                 Event::Warning(w) => self.ctx.warn(w),
             }
+            #[cfg(cooklang_verif)]
+            self.verif_snapshot(verif_event, current_block.is_some());
         }
         if !self.current_section.is_empty() {
             self.content.sections.push(self.current_section);
@@ -1214,6 +1220,63 @@ impl<'i> RecipeCollector<'i, '_> {
             });
             None
         }
+    }
+}
+
+#[cfg(cooklang_verif)]
+fn verif_event_name(event: &Event) -> &'static str {
+    match event {
+        Event::YAMLFrontMatter(_) => "FrontMatter",
+        Event::Metadata { .. } => "Metadata",
+        Event::Section { .. } => "Section",
+        Event::Start(BlockKind::Step) => "StartStep",
+        Event::Start(BlockKind::Text) => "StartText",
+        Event::End(BlockKind::Step) => "EndStep",
+        Event::End(BlockKind::Text) => "EndText",
+        Event::Text(_) => "Text",
+        Event::Ingredient(_) => "Ingredient",
+        Event::Cookware(_) => "Cookware",
+        Event::Timer(_) => "Timer",
+        Event::Error(_) => "Error",
+        Event::Warning(_) => "Warning",
+    }
+}
+
+#[cfg(cooklang_verif)]
+impl RecipeCollector<'_, '_> {
+    fn verif_snapshot(&self, event: &'static str, in_block: bool) {
+        if !super::verif::enabled() {
+            return;
+        }
+        super::verif::push(super::verif::Snapshot {
+            event,
+            define_mode: match self.define_mode {
+                DefineMode::All => "all",
+                DefineMode::Components => "components",
+                DefineMode::Steps => "steps",
+                DefineMode::Text => "text",
+            },
+            duplicate_mode: match self.duplicate_mode {
+                DuplicateMode::New => "new",
+                DuplicateMode::Reference => "ref",
+            },
+            step_counter: self.step_counter,
+            old_style_metadata: self.old_style_metadata,
+            in_block,
+            ingredients: self.content.ingredients.len(),
+            cookware: self.content.cookware.len(),
+            timers: self.content.timers.len(),
+            inline_quantities: self.content.inline_quantities.len(),
+            sections: self.content.sections.len(),
+            current_content: self.current_section.content.len(),
+            current_steps: self
+                .current_section
+                .content
+                .iter()
+                .filter(|c| c.is_step())
+                .count(),
+            diagnostics: self.ctx.iter().count(),
+        });
     }
 }
 
